@@ -25,7 +25,7 @@ RULE = (
     "enumeration of the transfer-free valid mappings, re-priced for dup, floss in {0..5}, spe=0.  Checked: reconcile_lca maps every internal "
     "node to the parent-chain LCA of the species of its leaves, is valid, its package cost == recount == minimum for all 36 pairs, and for "
     "floss>0 it is the only optimal mapping.  Random layer: inputs <=5/5 (same oracle) and <=10/8 leaves (reconcile_thl with hgt=inf must "
-    "cost the same as reconcile_lca, 3 random cost pairs).  Non-trivial: the LCA reconciliation has >=1 duplication and >=1 loss; "
+    "cost the same as reconcile_lca, 3 random cost pairs).  Ancestral nodes of both trees are unnamed in a third (exhaustive) / half (random) of the cases and results are read by clades.  Non-trivial: the LCA reconciliation has >=1 duplication and >=1 loss; "
     "distinct by SHA-1 of the input."
 )
 ASSUMPTIONS = ["speciation cost 0, transfers forbidden (infinite transfer cost)", "enumerator and parent-chain LCA of harness/plain.py"]
@@ -46,11 +46,26 @@ def _case(draw):
         case = draw(gen.rec_case(max_obj=10, max_sp=8, min_obj=2, costs=None))
         case["_kind"] = "thl"
         case["_pairs"] = [[draw(st.integers(0, 5)), draw(st.integers(0, 5))] for _ in range(3)]
+    case["_unnamed"] = draw(st.booleans())
     return case
 
 
 def strategy(tier):
     return _case()
+
+
+def _strip_ancestor_names(case):
+    """Same input with unnamed ancestral nodes in both trees (legal through the Python API)."""
+    from ..plain import parse_newick
+
+    out = dict(case)
+    for key in ("object_tree", "species_tree"):
+        t = parse_newick(case[key])
+        for n in t.nodes():
+            if not t.is_leaf(n):
+                t.name[n] = ""
+        out[key] = t.to_newick()
+    return out
 
 
 def exhaustive(tier):
@@ -65,6 +80,7 @@ def run_job(job):
         if k % mod == idx:
             case = dict(base)
             case["_kind"] = "oracle"
+            case["_unnamed"] = k % 3 == 0
             yield case
 
 
@@ -82,9 +98,13 @@ def check(case):
     base = {k: v for k, v in case.items() if not k.startswith("_")}
     base["costs"] = {"SPECIATION": 0, "DUPLICATION": 1, "HORIZONTAL_TRANSFER": INF, "FULL_LOSS": 1, "SEGMENTAL_LOSS": 1}
     inst = Instance(base)
-    inp = pkg.make_input(base, labelled=False)
+    unnamed = bool(case.get("_unnamed"))
+    inp = pkg.make_input(_strip_ancestor_names(base) if unnamed else base, labelled=False, label=not unnamed)
     out = pkg.run_algo("lca", inp)[0]
-    m = pkg.mapping_names(out)
+    # read the result by clades (ancestors may be unnamed), then express it with the harness's names
+    oname = {inst.O.clade(n): inst.O.name[n] for n in inst.O.nodes()}
+    sname = {inst.S.clade(n): inst.S.name[n] for n in inst.S.nodes()}
+    m = {oname[frozenset(k.get_leaf_names())]: sname[frozenset(v.get_leaf_names())] for k, v in out.object_species.items()}
     expected = inst.lca_mapping()
     if m != expected:
         raise Violation("lca.mapping!=parent-chain-lca", observed=m, expected=expected)
